@@ -54,17 +54,8 @@ theorem nextBar_eq (s : BollingerBands F) (b : Bar F) : s.nextBar b = s.next b.c
   unfold nextBar
   cases h : s.next b.close <;> simp [h]
 
-theorem reset_eq (s : BollingerBands F) (h : WF s) : s.reset = some (fresh s.period s.multiplier) := by
-  unfold reset
-  simp [StandardDeviation.reset_eq _ h.sd, fresh, h.per]
-
 theorem period_fn_eq (s : BollingerBands F) : s.period_fn = s.period := rfl
+
 theorem multiplier_fn_eq (s : BollingerBands F) : s.multiplier_fn = s.multiplier := rfl
-theorem display_eq (fmt : F → String) (s : BollingerBands F) :
-    display fmt s = "BB(" ++ toString s.period ++ ", " ++ fmt s.multiplier ++ ")" := rfl
-theorem default_eq : (default_ : Option (BollingerBands F)) = some (fresh 9 (Scalar.lit 2 0)) := by
-  unfold default_
-  rw [new_eq]
-  simp [unwrap, isizeMax]
 
 end TaRs.Gen.BollingerBands
